@@ -43,7 +43,7 @@ def run(run):
     if not q:
         for k in range(1, 5):
             run.stream("c18", 250000, seed_offset=k)
-        run.leanchecker(["Csvq.Props.C18"])
+        pass  # leanchecker now runs for every property in the thorough tier (vt.core.obligations_for)
     return run.finish(
         level="proof",
         rule="(a) rune strings over-weighting quotes, backslashes, escape letters, control runes, CR/LF, NUL, non-ASCII pool runes and invalid UTF-8 through all six escape functions and the real Scanner (4 modes), "
